@@ -848,3 +848,158 @@ Qed.
 
 Lemma preamble_le3 : forall c, (N.to_nat (c_preamble_longs c) <= 3)%nat.
 Proof. intros. unfold c_preamble_longs. destruct (c_is_estimation_mode c); [cbn; lia|]. destruct (_ || _); cbn; lia. Qed.
+
+(* ====================== whatever the reader accepts is well-formed ====================== *)
+Lemma wf_intro : forall sh es th sd od em,
+  Forall (fun h => 0 < h /\ h < th) es -> 0 < th /\ th <= MAX_THETA ->
+  sd < 65536 -> (em = false -> sd = sh) -> (od = true -> ascending_b es = true) ->
+  (em = true -> es = [] /\ th = MAX_THETA) -> N.of_nat (length es) < M32 ->
+  c_wf sh (mkC es th sd od em).
+Proof. intros. constructor; cbn [ce_entries ce_theta ce_seed_hash ce_ordered ce_empty]; auto. Qed.
+
+Lemma rd_step : forall n bs v r, bytes_lt bs -> rd n bs = Ok (v, r) -> bytes_lt r /\ v < 256 ^ N.of_nat n.
+Proof. exact rd_bytes. Qed.
+
+Lemma andb_eqb_true : forall n th, (n =? 0) && (th =? MAX_THETA) = true -> n = 0 /\ th = MAX_THETA.
+Proof. intros n th H. apply andb_prop in H as [H1 H2]. apply N.eqb_eq in H1, H2. auto. Qed.
+
+Lemma nil_of_len0 : forall (es : list N), N.of_nat (length es) = 0 -> es = [].
+Proof. intros [|e es] H; [reflexivity|cbn [length] in H; lia]. Qed.
+
+Theorem deserialize_ok_wf : forall sh bs c, sh < 65536 -> bytes_lt bs -> c_deserialize sh bs = Ok c -> c_wf sh c.
+Proof.
+  intros sh bs c Hsh Hb H. unfold c_deserialize in H.
+  apply obind_ok in H as [[pre bs1] [H1 H]]. destruct (rd_step _ _ _ _ Hb H1) as [Hb1 _].
+  apply obind_ok in H as [[ver bs2] [H2 H]]. destruct (rd_step _ _ _ _ Hb1 H2) as [Hb2 _].
+  apply obind_ok in H as [[fam bs3] [H3 H]]. destruct (rd_step _ _ _ _ Hb2 H3) as [Hb3 _].
+  destruct (negb (fam =? _)); [discriminate|]. destruct (negb (_ && _)); [discriminate|].
+  change (256 ^ N.of_nat 4) with M32 in *. change (256 ^ N.of_nat 2) with 65536 in *.
+  destruct (ver =? 1).
+  { unfold deserialize_v1 in H.
+    apply obind_ok in H as [[? b4] [R4 H]]. destruct (rd_step _ _ _ _ Hb3 R4) as [B4 _].
+    apply obind_ok in H as [[? b5] [R5 H]]. destruct (rd_step _ _ _ _ B4 R5) as [B5 _].
+    apply obind_ok in H as [[nn b6] [R6 H]]. destruct (rd_step _ _ _ _ B5 R6) as [B6 V6].
+    apply obind_ok in H as [[? b7] [R7 H]]. destruct (rd_step _ _ _ _ B6 R7) as [B7 _].
+    apply obind_ok in H as [[theta b8] [R8 H]].
+    apply obind_ok in H as [u1 [Hth H]]. apply ensure_theta_ok in Hth.
+    destruct ((nn =? 0) && (theta =? MAX_THETA)) eqn:Eem.
+    - inversion H. apply andb_eqb_true in Eem as [_ Et].
+      apply wf_intro; [constructor|exact Hth|exact Hsh|reflexivity|reflexivity|intros _; split; [reflexivity|exact Et]|cbn [length]; unfold M32; lia].
+    - apply obind_ok in H as [es [Hes H]]. apply read_entries_ok in Hes as [E1 [E2 E3]].
+      apply obind_ok in H as [u2 [Ho H]]. apply ensure_ordered_inv in Ho. inversion H.
+      change (256 ^ N.of_nat 4) with M32 in V6.
+      apply wf_intro; [exact E1|exact Hth|exact Hsh|reflexivity|intros _; exact Ho|discriminate|lia]. }
+  destruct (ver =? 2).
+  { unfold deserialize_v2 in H.
+    apply obind_ok in H as [[? b4] [R4 H]]. destruct (rd_step _ _ _ _ Hb3 R4) as [B4 _].
+    apply obind_ok in H as [[? b5] [R5 H]]. destruct (rd_step _ _ _ _ B4 R5) as [B5 _].
+    apply obind_ok in H as [[seed b6] [R6 H]]. destruct (rd_step _ _ _ _ B5 R6) as [B6 V6].
+    destruct (N.eqb_spec seed sh) as [Es|]; [|discriminate]. cbn [negb] in H.
+    change (256 ^ N.of_nat 2) with 65536 in V6.
+    destruct (pre =? _).
+    { inversion H. apply wf_intro; [constructor|apply max_theta_pos|lia|discriminate|reflexivity|intros _; split; reflexivity|cbn [length]; unfold M32; lia]. }
+    destruct (pre =? _).
+    { apply obind_ok in H as [[nn b7] [R7 H]]. destruct (rd_step _ _ _ _ B6 R7) as [B7 V7].
+      apply obind_ok in H as [[? b8] [R8 H]].
+      apply obind_ok in H as [es [Hes H]]. apply read_entries_ok in Hes as [E1 [E2 E3]].
+      apply obind_ok in H as [u2 [Ho H]]. apply ensure_ordered_inv in Ho. inversion H.
+      change (256 ^ N.of_nat 4) with M32 in V7.
+      apply wf_intro; [exact E1|apply max_theta_pos|lia|intros _; exact Es|intros _; exact Ho| |lia].
+      intros Ez. apply N.eqb_eq in Ez. split; [apply nil_of_len0; lia|reflexivity]. }
+    destruct (pre =? _); [|discriminate].
+    apply obind_ok in H as [[nn b7] [R7 H]]. destruct (rd_step _ _ _ _ B6 R7) as [B7 V7].
+    apply obind_ok in H as [[? b8] [R8 H]]. destruct (rd_step _ _ _ _ B7 R8) as [B8 _].
+    apply obind_ok in H as [[theta b9] [R9 H]].
+    apply obind_ok in H as [u1 [Hth H]]. apply ensure_theta_ok in Hth.
+    apply obind_ok in H as [es [Hes H]]. apply read_entries_ok in Hes as [E1 [E2 E3]].
+    apply obind_ok in H as [u2 [Ho H]]. apply ensure_ordered_inv in Ho. inversion H.
+    change (256 ^ N.of_nat 4) with M32 in V7.
+    apply wf_intro; [exact E1|exact Hth|lia|intros _; exact Es|intros _; exact Ho| |lia].
+    intros Ez. apply andb_eqb_true in Ez as [Ez Et]. split; [apply nil_of_len0; lia|exact Et]. }
+  destruct (ver =? 3).
+  { unfold deserialize_v3 in H.
+    apply obind_ok in H as [[? b4] [R4 H]]. destruct (rd_step _ _ _ _ Hb3 R4) as [B4 _].
+    apply obind_ok in H as [[flags b5] [R5 H]]. destruct (rd_step _ _ _ _ B4 R5) as [B5 _].
+    apply obind_ok in H as [[seed b6] [R6 H]]. destruct (rd_step _ _ _ _ B5 R6) as [B6 V6].
+    change (256 ^ N.of_nat 2) with 65536 in V6.
+    destruct (flag_set flags (zN GenTheta.FLAGS_IS_EMPTY)).
+    { inversion H. apply wf_intro; [constructor|apply max_theta_pos|lia|discriminate|intros _; reflexivity|intros _; split; reflexivity|cbn [length]; unfold M32; lia]. }
+    destruct (N.eqb_spec seed sh) as [Es|]; [|discriminate]. cbn [negb] in H.
+    apply obind_ok in H as [[[nn theta] b7] [Hhdr H]].
+    assert (Hhd : (0 < theta /\ theta <= MAX_THETA) /\ nn < M32).
+    { destruct (pre =? 1).
+      - inversion Hhdr; subst. split; [apply max_theta_pos|unfold M32; lia].
+      - apply obind_ok in Hhdr as [[n0 c1] [Q1 Hhdr]]. destruct (rd_step _ _ _ _ B6 Q1) as [C1 W1].
+        change (256 ^ N.of_nat 4) with M32 in W1.
+        apply obind_ok in Hhdr as [[? c2] [Q2 Hhdr]].
+        destruct (2 <? pre).
+        + apply obind_ok in Hhdr as [[th c3] [Q3 Hhdr]].
+          apply obind_ok in Hhdr as [u1 [Hth Hhdr]]. apply ensure_theta_ok in Hth. inversion Hhdr; subst. split; assumption.
+        + inversion Hhdr; subst. split; [apply max_theta_pos|assumption]. }
+    destruct Hhd as [Hth Hnn].
+    apply obind_ok in H as [es [Hes H]]. apply read_entries_ok in Hes as [E1 [E2 E3]].
+    apply obind_ok in H as [u2 [Ho H]]. inversion H.
+    apply wf_intro; [exact E1|exact Hth|lia|intros _; exact Es|intros Hf; eapply ordered_if_inv; eauto|discriminate|lia]. }
+  destruct (ver =? 4); [|discriminate].
+  unfold deserialize_v4 in H.
+  apply obind_ok in H as [[eb b4] [R4 H]]. destruct (rd_step _ _ _ _ Hb3 R4) as [Hb4 _].
+  apply obind_ok in H as [[neb b5] [R5 H]]. destruct (rd_step _ _ _ _ Hb4 R5) as [Hb5 _].
+  apply obind_ok in H as [[flags b6] [R6 H]]. destruct (rd_step _ _ _ _ Hb5 R6) as [Hb6 _].
+  apply obind_ok in H as [[seed b7] [R7 H]]. destruct (rd_step _ _ _ _ Hb6 R7) as [Hb7 V7].
+  change (256 ^ N.of_nat 2) with 65536 in V7.
+  destruct (N.leb_spec 1 eb) as [He1|]; [|discriminate]. destruct (N.leb_spec eb 63) as [He63|]; [|discriminate]. cbn [andb negb] in H.
+  destruct (N.ltb_spec 4 neb) as [|Hneb]; [discriminate|].
+  set (em := flag_set flags (zN GenTheta.FLAGS_IS_EMPTY)) in *.
+  destruct (negb em && negb (seed =? sh)) eqn:Eseed; [discriminate|].
+  apply obind_ok in H as [[theta b8] [R8 H]].
+  assert (Hb8 : bytes_lt b8).
+  { destruct (1 <? pre); [destruct (rd_step _ _ _ _ Hb7 R8); assumption|inversion R8; subst; exact Hb7]. }
+  apply obind_ok in H as [u1 [Hth H]]. apply ensure_theta_ok in Hth.
+  apply obind_ok in H as [[cnt b9] [R9 H]]. unfold rd_count in R9. destruct (rd_step _ _ _ _ Hb8 R9) as [Hb9 V9].
+  rewrite block_width in H.
+  destruct (em && (negb (cnt =? 0) || negb (theta =? MAX_THETA))) eqn:Eflag; [discriminate|].
+  destruct (N.ltb_spec (N.of_nat (length b9)) (cnt / 8 * eb + (cnt mod 8 * eb + 7) / 8)) as [|Hpk]; [discriminate|].
+  assert (Hw : (1 <= N.to_nat eb <= 63)%nat) by lia.
+  apply obind_ok in H as [ds [Hds H]].
+  rewrite <- (N2Nat.id eb) in Hds. apply unpack_deltas_len in Hds; [|exact Hw|exact Hb9|lia].
+  apply obind_ok in H as [es [Hes H]]. apply undo_deltas_ok in Hes as [E1 E2].
+  apply obind_ok in H as [u2 [Ho H]]. inversion H.
+  assert (Hcnt : cnt < M32).
+  { rewrite N2Nat.id in V9. eapply N.lt_le_trans; [exact V9|]. change M32 with (256 ^ 4). apply N.pow_le_mono_r; lia. }
+  apply wf_intro; [exact E1|exact Hth|lia| | | | ].
+  - intros Ee. rewrite Ee in Eseed. cbn [negb andb] in Eseed. destruct (N.eqb_spec seed sh); [assumption|discriminate].
+  - intros Hf. eapply ordered_if_inv; eauto.
+  - intros Ee. rewrite Ee in Eflag. cbn [andb] in Eflag. apply orb_false_iff in Eflag as [F1 F2].
+    apply negb_false_iff in F1, F2. apply N.eqb_eq in F1, F2. split; [|exact F2].
+    apply nil_of_len0. rewrite E2, Hds. lia.
+  - rewrite E2, Hds. lia.
+Qed.
+
+(* so the round trips of C11 apply to everything the reader returns *)
+Theorem deserialized_roundtrips : forall sh bs c, sh < 65536 -> bytes_lt bs -> c_deserialize sh bs = Ok c ->
+  c_deserialize sh (c_serialize c) = Ok c /\
+  exists bs', c_serialize_compressed c = Ok bs' /\ c_deserialize sh bs' = Ok c.
+Proof.
+  intros sh bs c Hsh Hb H. pose proof (deserialize_ok_wf sh bs c Hsh Hb H) as Hwf.
+  split; [now apply roundtrip_v3|now apply roundtrip_compressed].
+Qed.
+
+(* ---------- the two guards in front of the reader's allocations, whatever happens afterwards ---------- *)
+(* read_entries allocates num_entries u64 only after this test has passed *)
+Lemma read_entries_guard : forall num_entries len, (len / 8 <? num_entries) = false -> 8 * num_entries <= len.
+Proof. intros n len H. apply N.ltb_ge in H. lia. Qed.
+
+(* deserialize_v4 allocates num_entries u64 only after this test has passed (entry_bits >= 1) *)
+Lemma v4_guard : forall cnt eb len, 1 <= eb ->
+  (len <? cnt / 8 * eb + (cnt mod 8 * eb + 7) / 8) = false -> cnt <= 8 * len.
+Proof.
+  intros cnt eb len He1 H. apply N.ltb_ge in H.
+  assert (Hq : cnt = 8 * (cnt / 8) + cnt mod 8) by (apply N.div_mod; lia).
+  assert (Hm : cnt mod 8 < 8) by (apply N.mod_lt; lia).
+  set (q := cnt / 8) in *. set (m := cnt mod 8) in *.
+  assert (H1 : q <= q * eb) by nia. assert (H2 : m <= m * eb) by nia.
+  assert (Hd : m * eb + 7 = 8 * ((m * eb + 7) / 8) + (m * eb + 7) mod 8) by (apply N.div_mod; lia).
+  assert (Hm2 : (m * eb + 7) mod 8 < 8) by (apply N.mod_lt; lia).
+  set (t := (m * eb + 7) / 8) in *. set (u2' := (m * eb + 7) mod 8) in *. set (x := q * eb) in *. set (y := m * eb) in *.
+  clearbody q m t u2' x y. lia.
+Qed.
